@@ -6,28 +6,23 @@
 import KestrelModel.File
 import KestrelProofs.Chunks
 import KestrelProofs.File
+import KestrelProofs.IOBasics
 namespace Kestrel.EncIO
 open Kestrel
 
-/-! ### script predicates -/
+/-! ### script predicates
 
-/-- every scripted read delivers at least one byte (as far as data remains) and none fails -/
-def Src.faultFree (s : Src) : Prop := ∀ e ∈ s.script, ∃ n, e = RdEv.data n ∧ 1 ≤ n
+  `Src.faultFree`, `Snk.faultFree`, `Snk.benign` are the ones of `KestrelProofs/IOBasics.lean`
+  (source: script all `data n`, `1 ≤ n`; sink: all `accept n`, `1 ≤ n` — benign: or `errInterrupted` —, flushes all `ok`). -/
 
 /-- the script contains an error event (hard or `Interrupted`) -/
 def Src.hasErr (s : Src) : Prop := ∃ e ∈ s.script, e = RdEv.errOther ∨ e = RdEv.errInterrupted
 
-def WsFaultFree (ws : List WrEv) : Prop := ∀ e ∈ ws, ∃ n, e = WrEv.accept n ∧ 1 ≤ n
 def WsBenign (ws : List WrEv) : Prop := ∀ e ∈ ws, e = WrEv.errInterrupted ∨ ∃ n, e = WrEv.accept n ∧ 1 ≤ n
 def FsOk (fs : List FlEv) : Prop := ∀ f ∈ fs, f = FlEv.ok
 
-/-- every scripted write accepts at least one byte, every scripted flush succeeds -/
-def Snk.faultFree (k : Snk) : Prop := WsFaultFree k.ws ∧ FsOk k.fs
-/-- as `faultFree`, but writes may also be `Interrupted` (which `write_all` retries) -/
-def Snk.benign (k : Snk) : Prop := WsBenign k.ws ∧ FsOk k.fs
-
-theorem Snk.faultFree.benign {k : Snk} (h : Snk.faultFree k) : Snk.benign k :=
-  ⟨fun e he => Or.inr (h.1 e he), h.2⟩
+theorem benign_ws {k : Snk} (h : Snk.benign k) : WsBenign k.ws := fun e he => (h.1 e he).symm
+theorem benign_fs {k : Snk} (h : Snk.benign k) : FsOk k.fs := h.2
 
 theorem Src.faultFree_iff_conforming (s : Src) : Src.faultFree s ↔ ∀ e ∈ s.script, e.conforming = true := by
   constructor
@@ -41,7 +36,7 @@ theorem Src.faultFree_iff_conforming (s : Src) : Src.faultFree s ↔ ∀ e ∈ s
     | errOther => simp [RdEv.conforming] at this
     | errInterrupted => simp [RdEv.conforming] at this
 
-theorem Src.faultFree.not_hasErr {s : Src} (h : Src.faultFree s) : ¬ Src.hasErr s := by
+theorem faultFree_not_hasErr {s : Src} (h : Src.faultFree s) : ¬ Src.hasErr s := by
   rintro ⟨e, he, h1 | h1⟩ <;> obtain ⟨n, hn, _⟩ := h e he <;> rw [h1] at hn <;> cases hn
 
 /-! ### one `read()` -/
@@ -446,7 +441,7 @@ theorem writeRecord_step (at_ : Nat × Nat) (k : Snk) (hdr body : Bytes) :
 /-- **one record, benign sink**: succeeds. -/
 theorem writeRecord_benign (at_ : Nat × Nat) (k : Snk) (hdr body : Bytes) (hb : Snk.benign k) :
     (writeRecord k at_ hdr body).1 = true := by
-  have h1 := writeAll_benign at_ (k.wfuel hdr) k hdr hb.1 (by simp [Snk.wfuel])
+  have h1 := writeAll_benign at_ (k.wfuel hdr) k hdr (benign_ws hb) (by simp [Snk.wfuel])
   obtain ⟨p1, hs1, _, _⟩ := writeAll_step at_ (k.wfuel hdr) k hdr
   unfold writeRecord
   split
@@ -454,7 +449,7 @@ theorem writeRecord_benign (at_ : Nat × Nat) (k : Snk) (hdr body : Bytes) (hb :
   · rename_i k1 e1
     rw [e1] at hs1
     have hb1 := hs1.benign hb
-    have h2 := writeAll_benign at_ (k1.wfuel body) k1 body hb1.1 (by simp [Snk.wfuel])
+    have h2 := writeAll_benign at_ (k1.wfuel body) k1 body (benign_ws hb1) (by simp [Snk.wfuel])
     obtain ⟨p2, hs2, _, _⟩ := writeAll_step at_ (k1.wfuel body) k1 body
     split
     · rename_i k2 e2; rw [e2] at h2; cases h2
@@ -859,7 +854,7 @@ theorem encryptChunksIO_faultFree (hcs : 0 < cs) (s : Src) (k : Snk) (hs : Src.f
   have hok : (encryptChunksIO A key aad cs s k).1 = .ok := by
     rcases encryptChunksIO_res A key aad cs s k with h | h | h | h
     · exact h
-    · exact absurd (encryptChunksIO_ioRead A key aad cs s k h) hs.not_hasErr
+    · exact absurd (encryptChunksIO_ioRead A key aad cs s k h) (faultFree_not_hasErr hs)
     · exact absurd hk (encryptChunksIO_ioWrite A key aad cs s k h)
     · exact absurd h (encryptChunksIO_no_unexpected A key aad cs hcs s k hs)
   obtain ⟨p, hp1, _, hp3⟩ := encryptChunksIO_prefix A key aad cs s k
